@@ -1623,6 +1623,16 @@ class Invoice:
     gross: int = dataclasses.field(init=False, default=0)
     def __post_init__(self):
         self.gross = self.net + self.net * self.rate // 100
+class Pt2:
+    # fields known from __init__ only; a subclass overrides __init__ with MORE parameters
+    def __init__(self, x: int, y: int):
+        self.x, self.y = x, y
+    def __repr__(self):
+        return f"{type(self).__name__}({vars(self)})"
+class Pt3(Pt2):
+    def __init__(self, x: int, y: int, z: int):
+        super().__init__(x, y)
+        self.z = z
 class Span:
     # no class-level annotations, no slots: what an instance holds is read from the instance -- and instances differ
     def __init__(self, start: int, stop: typing.Optional[int] = None):
@@ -1635,12 +1645,12 @@ class Span:
 SEQ_TYPES = ["int | str", "typing.Union[int, str, None]", "list[int] | list[str]", "int | float", "float | str", "datetime.date | str",
              "decimal.Decimal | str", "bool | int | str", "dict[str, int | str]", "list[int | str]", "tuple[int | str, ...]", "Row",
              "typing.Optional[Row]", "int | datetime.date", "float | datetime.timedelta", "str", "int", "list[int]", "Invoice", "list[Invoice]",
-             "Span", "dict[str, int]"]
+             "Span", "dict[str, int]", "Pt2", "Pt3"]
 SEQ_INPUTS = ["'abc'", "'5'", "'1.5'", "5", "1.5", "float('inf')", "True", "None", "['a', 'b']", "['1', '2']", "[1, 2]", "{'k': 'abc'}",
               "{'k': '5'}", "('x', '7')", "'2020-01-02'", "datetime.date(2020, 1, 2)", "{'key': 'abc'}", "{'key': '5'}",
               "Row('abc')", "Row('5', ['1'])", "Row(5, ['a'])", "b'5'", "b'abc'", "datetime.timedelta(seconds=3)", "7200",
               "Invoice(100, 20)", "{'net': 100, 'rate': 20}", "[Invoice(1)]", "[{'net': '3'}]",
-              "Span(1)", "Span(1, 5)", "Span(2, 7)"]
+              "Span(1)", "Span(1, 5)", "Span(2, 7)", "Pt2(1, 2)", "Pt3(1, 2, 3)", "{'x': '1', 'y': '2'}", "{'x': '1', 'y': '2', 'z': '3'}"]
 SEQ_OPS = ["marshal", "unmarshal", "encode", "decode"]
 
 
@@ -1692,6 +1702,14 @@ def check_sequences(ctx, res):
     for t in SEQ_TYPES:
         for _ in range(n_seq):
             warm_jobs.append([(rng.choice(SEQ_OPS), t, rng.choice(SEQ_INPUTS)) for _ in range(12)])
+    # several RELATED annotations in one process (a class and its subclass, a class and its Optional, ...): what was built for one
+    # may not leak into the other
+    groups = [["Pt2", "Pt3"], ["Pt3", "Pt2"], ["Row", "typing.Optional[Row]", "Invoice"], ["Span", "dict[str, int]", "Pt2"], ["Invoice", "list[Invoice]", "Pt3"]]
+    for grp in groups:
+        for _ in range(max(2, n_seq)):
+            warm_jobs.append([(rng.choice(SEQ_OPS), rng.choice(grp), rng.choice(SEQ_INPUTS)) for _ in range(14)])
+        # and deterministically: everything for the first, then everything for the second
+        warm_jobs.append([(op, t, x) for t in grp[:2] for op in ("unmarshal", "marshal") for x in ("Pt2(1, 2)", "Pt3(1, 2, 3)", "{'x': '1', 'y': '2', 'z': '3'}")])
     outs = iso.map_isolated(_seq_child, cold_jobs + warm_jobs, timeout=120.0)
     cold = {}
     for job, o in zip(cold_jobs, outs[:len(cold_jobs)]):
